@@ -274,13 +274,27 @@ def run(ctx):
     ctx.instance(R5, "validate_value[no assert on the value]", not asserts, "validate_value asserts on the value: message data raises AssertionError", loc(asserts[0]) if asserts else loc(fn))
     for q, need in ((NUM, {"ValueError"}), (DTM, {"ValueError", "Exception"})):
         hf = repo.func(q)
-        wide = [c for c in walk_no_nested(hf) if isinstance(c, ast.Call) and (unparse(c.func) in ("num_type", "int", "float") or unparse(c.func).endswith("strptime"))]
+        vp_ = hf.args.args[0].arg
+        # (conversions of the message value itself; `float(v)` of the number already parsed is not a parse of message text)
+        wide = [c for c in walk_no_nested(hf) if isinstance(c, ast.Call) and (unparse(c.func) in ("num_type", "int", "float") or unparse(c.func).endswith("strptime"))
+                and c.args and any(isinstance(x_, ast.Name) and x_.id == vp_ for x_ in ast.walk(c.args[0]))]
         from rules.c10 import handler_catches
         ok = bool(wide) and all(handler_catches(c, hf, need) for c in wide)
         ctx.instance(R5, f"{q.split('.')[-1]}[stdlib parse under a handler]", ok, f"the stdlib parse in {q} is not enclosed by a handler for {sorted(need)}: a bad value escapes as a raw exception",
                      loc(wide[0]) if wide else loc(hf))
         rets = [n for n in walk_no_nested(hf) if isinstance(n, ast.Return) and n.value is not None and not (isinstance(n.value, ast.Constant) and n.value.value is None)]
-        ok = all(unparse(n.value).startswith(("str(", "f'", "'", '"')) or isinstance(n.value, (ast.JoinedStr,)) or "_validate_value_datetime(" in unparse(n.value) for n in rets)
+        def _strish(v_, depth=0):
+            if unparse(v_).startswith(("str(", "f'", "'", '"')) or isinstance(v_, ast.JoinedStr) or "_validate_value_datetime(" in unparse(v_):
+                return True
+            if isinstance(v_, ast.Constant) and v_.value is None:
+                return True
+            if isinstance(v_, ast.Name) and depth < 3:
+                # a local that only ever holds None / an error text
+                from sa.guards import derivation as _deriv
+                vals_ = _deriv(hf, v_.id, 0).get(v_.id, [])
+                return bool(vals_) and all(_strish(x_, depth + 1) for x_ in vals_)
+            return False
+        ok = all(_strish(n.value) for n in rets)
         ctx.instance(R5, f"{q.split('.')[-1]}[verdict is None or an error string]", ok, f"{q} returns something else than None / an error string", loc(hf))
 
     # ------------------------------------------------------------------ rule 6
@@ -399,7 +413,27 @@ def resolve_pattern(fn, expr, guard, compiled):
             c = compiled[e.id]
             fl = [unparse(a) for a in c.args[1:]] + [unparse(k.value) for k in c.keywords]
             return one(c.args[0], fl, whole)
+        if isinstance(e, ast.Call) and unparse(e.func) == "re.compile" and e.args:
+            fl = [unparse(a) for a in e.args[1:]] + [unparse(k.value) for k in e.keywords]
+            return one(e.args[0], fl, whole)
         return None
+    if isinstance(expr, ast.Subscript) and unparse(expr.slice) == "num_type":
+        # a table {int: <pattern>, float: <pattern>} (class or module level, assigned once) looked up by the numeric type
+        tname = unparse(expr.value).split(".")[-1]
+        mod = getattr(fn, "_module").tree
+        cands = [st for c in ast.walk(mod) if isinstance(c, (ast.Module, ast.ClassDef)) for st in c.body
+                 if isinstance(st, ast.Assign) and len(st.targets) == 1 and isinstance(st.targets[0], ast.Name) and st.targets[0].id == tname]
+        stores_ = [x for x in ast.walk(mod) if (isinstance(x, ast.Subscript) and isinstance(x.ctx, (ast.Store, ast.Del)) and unparse(x.value).split(".")[-1] == tname)
+                   or (isinstance(x, ast.Attribute) and x.attr in ("update", "pop", "clear", "setdefault") and unparse(x.value).split(".")[-1] == tname)]
+        if len(cands) == 1 and isinstance(cands[0].value, ast.Dict) and not stores_:
+            out = {}
+            for k_, v_ in zip(cands[0].value.keys, cands[0].value.values):
+                if k_ is not None and unparse(k_) in ("int", "float"):
+                    r_ = one(v_, guard.flags, guard.whole)
+                    if r_:
+                        out[unparse(k_)] = r_
+            return out
+        return {}
     if isinstance(expr, ast.IfExp) and re.fullmatch(r"num_type (is|==) (int|float)", unparse(expr.test)):
         which = unparse(expr.test).split()[-1]
         other = "float" if which == "int" else "int"
@@ -545,6 +579,12 @@ def datetime_guards(ctx, rule, repo):
             p = fold_format_guard(fn, v)
             out.append((p[0], p[1]) if p and p[0] is not None else None)
         return out
+    # a whole-string match exists but is not on every accepting path / its pattern is not computed from the format by string functions
+    # (e.g. looked up in a table keyed by the format): which language guards which format is then data, not visible here
+    gcs = [gd for gd in guard_calls(fn) if gd.whole and unparse(gd.value) == value]
+    if gcs and (not protected or any(fold_format_guard(fn, f_) is None or fold_format_guard(fn, f_)[0] is None for f_ in ("%Y%m%d",))):
+        raise AnalysisError("_validate_value_datetime: its layout match does not fold to a pattern computed from the format (conditional or table-driven guard): "
+                            "the language accepted per format is not visible")
     return for_format
 
 
@@ -660,6 +700,7 @@ def number_options(ctx, rule, repo):
     v = next((unparse(n.targets[0]) for n in walk_no_nested(fn) if isinstance(n, ast.Assign) and isinstance(n.targets[0], ast.Name)
               and isinstance(n.value, ast.Call) and unparse(n.value.func) in ("num_type", "int", "float")), "v")
     want = {"no_zero": [f"{v} == 0"], "no_negative": [f"{v} < 0"], "no_nonfinite": [f"isfinite(float({v}))"], "num_range": [f"{v} >= num_range[0]", f"{v} <= num_range[1]"]}
+    alt = {"num_range": [[f"num_range[0] <= {v} <= num_range[1]"], [f"num_range[1] >= {v} >= num_range[0]"], [f"{v} < num_range[0]", f"{v} > num_range[1]"]]}
     for opt, needles in want.items():
         hit = False
         for n in g.nodes:
@@ -668,6 +709,6 @@ def number_options(ctx, rule, repo):
                 isinstance(n.ast.value, ast.JoinedStr) or (isinstance(n.ast.value, ast.Constant) and isinstance(n.ast.value.value, str) and n.ast.value.value))))
             if rejecting:
                 for t, lab in g.guards(n.id, exc=False):
-                    if lab == "true" and (opt, True) in facts(t, True) and all(nd in unparse(t) for nd in needles):
+                    if lab == "true" and (opt, True) in facts(t, True) and (all(nd in unparse(t) for nd in needles) or any(all(nd in unparse(t) for nd in a_) for a_ in alt.get(opt, []))):
                         hit = True
         ctx.instance(rule, f"_validate_value_number[{opt} enforced]", hit, f"the {opt} option is accepted by the helper but its test ({' / '.join(needles)}) does not reject", loc(fn))
